@@ -62,6 +62,11 @@ NETWORKS['raman-lowpump'] = ('raman_edfa_example_network.json', 'eqpt_config.jso
 # edges of the comb and inter-/extrapolated for the others
 NETWORKS['mesh-ggn'] = ('meshTopologyExampleV2.json', 'eqpt_config.json',
                         {'nli_params': {'method': 'ggn_approx', 'computed_channels': [10, 14, 20]}})
+# the same with the number of evaluated channels given instead (nli_params.computed_number_of_channels: that many
+# channels spread evenly from one edge of the comb to the other, the others interpolated), and the same line design
+NETWORKS['mesh-ggn-n'] = ('meshTopologyExampleV2.json', 'eqpt_config.json',
+                          {'nli_params': {'method': 'ggn_approx', 'computed_number_of_channels': 8}})
+SAME_DESIGN = {'mesh-ggn-n': 'mesh-ggn'}        # the NLI parameters play no part in the design of a line without Raman pumps
 # the OpenROADM v5 example designed for a low launch power: the boosters behind the -20 dBm ROADMs run at ~2 dB gain
 NETWORKS['sweden5-lowpower'] = NETWORKS['sweden5']
 # the Raman example with a fibre that brings its own Raman gain profile, tabulated up to 15 THz only (a data sheet),
@@ -246,6 +251,10 @@ def network(name, service_req=None, initial_spectrum=None):
     transmission example does for a service: designed_network(service_req=..., initial_spectrum=...); the request
     returned by that call is the one to propagate (not cached)."""
     if service_req is None and name in _LOADED:
+        return _LOADED[name]
+    if service_req is None and name in SAME_DESIGN:
+        base = network(SAME_DESIGN[name])
+        _LOADED[name] = base and (base[0], base[1], base[2], NETWORKS[name][2])
         return _LOADED[name]
     from gnpy.tools.json_io import load_equipments_and_configs, load_network, load_json, network_from_json
     from gnpy.tools.worker_utils import designed_network
@@ -456,7 +465,15 @@ def record(name, netname, src, dst, spectrum=None, ref=None, auto_mode=None, via
             outcome, exc, tb = 3, f'{type(e).__name__}: {e}', traceback.format_exc()
         finally:
             rq.filter_si = orig_filter
-    if spectrum is None and not auto_mode and not service:
+    return _trace(name, netname, src, dst, path, eq, req, spectrum, auto_mode or service, labels, given, stages,
+                  rec.events, outcome, exc, tb, ref)
+
+
+def _trace(name, netname, src, dst, path, eq, req, spectrum, chosen_by_code, labels, given, stages, events, outcome, exc,
+           tb, ref):
+    """(trace, side) of one recorded propagation: stages = [('Launch', snapshot), ('Filter', snapshot)], events = the
+    element crossings; the receiver's figures are read from path[-1] NOW (when the recorded call has returned)"""
+    if spectrum is None and not chosen_by_code:
         # uniform grid of a fixed-mode request: carriers at f_min + i * spacing, i = 1 .. (f_max - f_min) // spacing,
         # every one with the request's symbol rate, roll-off, tx power, tx OSNR and power offset
         n = int((req.f_max - req.f_min) // req.spacing)
@@ -476,11 +493,11 @@ def record(name, netname, src, dst, spectrum=None, ref=None, auto_mode=None, via
     for cls, snap in stages:
         ev.append(dict(cls=cls, d=0, ops=[], **project_spectrum(snap, labels)))
     uids = ['', ''][:len(ev)]
-    for e in rec.events:
+    for e in events:
         ev.append(dict(cls=e['cls'], d=int(e['depth']), ops=list(e['ops']), **project_spectrum(e['post'], labels)))
         uids.append(e['uid'])
     fdev = 0.0          # float-level deviation of the share sum from 1 (before rounding to ppb), for the tolerance record
-    for snap in [sn for _, sn in stages] + [e['post'] for e in rec.events]:
+    for snap in [sn for _, sn in stages] + [e['post'] for e in events]:
         with np.errstate(divide='ignore', invalid='ignore'):
             d = np.abs((snap['signal'] + snap['ase'] + snap['nli']) / snap['pch'] - 1)
         if len(d) and np.all(np.isfinite(d)):
@@ -488,7 +505,7 @@ def record(name, netname, src, dst, spectrum=None, ref=None, auto_mode=None, via
     rx = dict(f=[], snr=[], osnr=[], onli=[], isnr=[], iosnr=[], inli=[], lab=[])
     if outcome == 0 and ev:
         t = path[-1]
-        last = (stages[-1][1] if not rec.events else rec.events[-1]['post'])
+        last = (stages[-1][1] if not events else events[-1]['post'])
         n = len(ev[-1]['f'])
 
         def at(a, k):
@@ -505,6 +522,86 @@ def record(name, netname, src, dst, spectrum=None, ref=None, auto_mode=None, via
     side = dict(name=name, net=netname, src=src, dst=dst, exception=exc, traceback=tb, uids=uids,
                 nch=len(given), classes=[e['cls'] for e in ev], float_share_dev=fdev, path=path)
     return trace, side
+
+
+def record_planning(tag, netname, services):
+    """the planning pipeline on a batch of fixed-mode services: requests_from_json, correct_json_route_list,
+    build_oms_list, requests_aggregation, compute_path_dsjctn and compute_path_with_disjunction (the real ones, on a copy of
+    the designed network),
+    every propagate() call inside recorded as one trace.  services: (src, dst, trx_type, trx_mode, spacing,
+    bidirectional); a bidirectional service is propagated A to Z and then Z to A.  The figures of every receiver -
+    both ends of a bidirectional service - are read from the paths the pipeline RETURNS, when it has returned."""
+    import gnpy.topology.request as rq
+    from gnpy.tools.json_io import requests_from_json
+    from gnpy.topology.spectrum_assignment import build_oms_list
+    from harness.record import snapshot
+    net, eq, _, sp = network(netname)
+    net = copy.deepcopy(net)        # build_oms_list attaches the line systems to the elements: not on the shared network
+    data = {'path-request': [{
+        'request-id': f'{k}', 'source': s, 'destination': d, 'src-tp-id': s, 'dst-tp-id': d, 'bidirectional': bool(bi),
+        'path-constraints': {'te-bandwidth': {'technology': 'flexi-grid', 'trx_type': trx, 'trx_mode': mode,
+                                              'spacing': spacing, 'path_bandwidth': 100e9}}}
+        for k, (s, d, trx, mode, spacing, bi) in enumerate(services)]}
+    calls = []                  # one per propagate() call: path (the very objects), req, stages, events, outcome
+    orig_filter, orig_propagate = rq.filter_si, rq.propagate
+
+    def filter_si(p, equipment, si):
+        if calls and calls[-1]['open']:
+            calls[-1]['stages'].append(('Launch', snapshot(si)))
+        out = orig_filter(p, equipment, si)
+        if calls and calls[-1]['open']:
+            calls[-1]['stages'].append(('Filter', snapshot(out)))
+        return out
+
+    def propagate(path, req, equipment):
+        rec.take()
+        c = dict(path=path, req=copy.copy(req), stages=[], events=[], outcome=0, exc=None, tb=None, open=True)
+        calls.append(c)
+        try:
+            return orig_propagate(path, req, equipment)
+        except Exception as e:                              # noqa
+            c['outcome'], c['exc'], c['tb'] = 3, f'{type(e).__name__}: {e}', traceback.format_exc()
+            raise
+        finally:
+            c['events'], c['open'] = rec.take(), False
+
+    failure = None
+    with sim_params(sp), Recording(keep_element=False) as rec:
+        rq.filter_si, rq.propagate = filter_si, propagate
+        try:
+            build_oms_list(net, eq)
+            rqs = requests_from_json(data, eq)
+            rqs = rq.correct_json_route_list(net, rqs)
+            rqs, dsjn = rq.requests_aggregation(rqs, [])
+            pths = rq.compute_path_dsjctn(net, eq, rqs, dsjn)
+            rq.compute_path_with_disjunction(net, eq, rqs, pths)
+        except Exception as e:                              # noqa
+            failure = (f'{type(e).__name__}: {e}', traceback.format_exc())
+        finally:
+            rq.filter_si, rq.propagate = orig_filter, orig_propagate
+    if failure and not any(c['outcome'] for c in calls):
+        # the pipeline itself failed on valid services (outside propagate): reported on a trace without events
+        calls.append(dict(path=[], req=None, stages=[], events=[], outcome=3, exc=failure[0], tb=failure[1]))
+    out = []
+    for c in calls:
+        path, req = c['path'], c['req']
+        a, z = (path[0].uid, path[-1].uid) if path else ('', '')
+        way = 'pipeline' if req is None else 'A->Z' if a == req.source else 'Z->A'
+        bi = 'bidirectional' if req is not None and req.bidir else 'one-way'
+        name = f'{netname}:{tag}:{bi}:{way}:{a}->{z}'
+        if req is None:
+            si = eq['SI']['default']
+            # (the batch is valid and must be propagated: it is stood for by one carrier in the middle of the default band)
+            out.append((dict(name=name, outcome=3, req=[[mhz((si.f_min + si.f_max) / 2), 50_000, 32_000, 1]], amps=[],
+                             dflt=[mhz(si.f_min), mhz(si.f_max)], ev=[],
+                             rx=dict(f=[], snr=[], osnr=[], onli=[], isnr=[], iosnr=[], inli=[], lab=[]),
+                             ref=dict(f=[], snr=[], osnr=[], onli=[])),
+                        dict(name=name, net=netname, src='', dst='', exception=c['exc'], traceback=c['tb'], uids=[], nch=0,
+                             classes=[], float_share_dev=0.0, path=[])))
+            continue
+        out.append(_trace(name, netname, a, z, path, eq, req, None, False, Labels(), [], c['stages'], c['events'],
+                          c['outcome'], c['exc'], c['tb'], None))
+    return out
 
 
 def record_chain(name, netname, pick, launch):
@@ -598,6 +695,21 @@ def seeded_carriers(rng, lo_mhz, hi_mhz, n_max=40, max_dbm=10.0):
     return out
 
 
+LEVELS = (-6.0, -3.0, 0.0, 3.0, 6.0)
+
+
+def power_blocks(rng, n, lo_mhz=-1_000_000):
+    """a strongly non-uniform comb of n 32 GBaud carriers on the 50 GHz grid: blocks of 3 to 8 neighbours launched at the
+    same level, the level changing by 3 to 12 dB from one block to the next (several generations of transponders sharing a line)"""
+    out, level = [], 0.0
+    while len(out) < n:
+        level = rng.choice([x for x in LEVELS if abs(x - level) >= 3.0])
+        for _ in range(rng.randint(3, 8)):
+            if len(out) < n:
+                out.append((hz(lo_mhz + 50_000 * len(out)), 32e9, 50e9, f'{level:+.0f}dB', 1e-3, level, 40.0, 0.15))
+    return out
+
+
 def scenarios(tier, seed):
     """list of callables, each returning [(trace, side), ...] (a base run and, for order checks, its permuted twin)"""
     rng = random.Random(seed)
@@ -659,9 +771,28 @@ def scenarios(tier, seed):
             return out
         jobs.append(go)
 
+    def planning_batch(tag, netname, k_both_ways, k_one_way, trx_type, trx_mode, spacing):
+        """a batch of fixed-mode services through the planning pipeline: k_both_ways seeded pairs, each requested as a
+        bidirectional service in BOTH orientations (whichever direction of the pair is the weaker one, it is once the
+        A to Z and once the Z to A direction), then k_one_way unidirectional services"""
+        def go():
+            net = network(netname)
+            if net is None:
+                return []
+            pairs = seeded_pairs(net[0], rng, k_both_ways + k_one_way)
+            services = [(a, z, trx_type, trx_mode, spacing, True) for s, d in pairs[:k_both_ways] for a, z in ((s, d), (d, s))]
+            services += [(s, d, trx_type, trx_mode, spacing, False) for s, d in pairs[k_both_ways:]]
+            return record_planning(tag, netname, services)
+        jobs.append(go)
+
     thorough = tier == 'thorough'
     # --- mesh V2 (single band, Fused nodes, several amplifier models)
-    uniform('uniform', 'mesh', 20 if thorough else 2)
+    uniform('uniform', 'mesh', 20 if thorough else 1)
+    # services computed by the planning pipeline, both directions of bidirectional ones
+    planning_batch('planning', 'mesh', 4 if thorough else 1, 4 if thorough else 1, 'Voyager', 'mode 1', 50e9)
+    if thorough:
+        planning_batch('planning-44G', 'mesh', 2, 1, 'Voyager', 'mode 3', 75e9)
+        planning_batch('planning', 'sweden5', 2, 1, 'OpenROADM MSA ver. 5.0', '200 Gbit/s, 31.57 Gbaud, DP-16QAM', 50e9)
     via_route('two-legs-through-a-transponder', 'mesh', 4 if thorough else 1)
     # grids anchored below the amplifiers' band by a fraction of the spacing
     uniform('uniform-grid-from-190.96THz', 'mesh', 1, f_min=190.96e12)
@@ -775,7 +906,12 @@ def scenarios(tier, seed):
     if thorough:
         with_spectrum('seeded-mixed', 'mesh-ggn', lambda: carriers(seeded_carriers(rng, -1_800_000, 2_000_000, 24)),
                       permute=False)
-    uniform('uniform', 'mesh-ggn', 3 if thorough else 1)
+    # the evaluated channels given by their number only, on combs made of blocks of carriers at very different levels
+    for k in range(4 if thorough else 2):
+        with_spectrum(f'power-blocks-{k}', 'mesh-ggn-n', lambda: carriers(power_blocks(rng, 40)), permute=False)
+    uniform('uniform', 'mesh-ggn-n', 1)
+    if thorough:
+        uniform('uniform', 'mesh-ggn', 3)
     # fibres of either dispersion sign, ROADMs with detailed per-path impairment profiles
     uniform('uniform', 'mesh-mixed', 8 if thorough else 2)
     # a full band at +3 .. +9 dBm per carrier straight into the longest fibre of either dispersion sign
